@@ -5,6 +5,7 @@ from . import c01_kani as _c01k
 from . import c06_roundtrip as _c06r
 from . import c11_decoys as _c11d
 from . import c14_directives as _c14d
+from . import e2e as _e2e
 
 TECH = ("contract-based deductive verification: Verus discharges contracts woven into the real functions extracted from "
         "/repo on every run (units: %s); vacuity canary copies; failures mapped to the property by contract labels")
@@ -25,13 +26,14 @@ PROPS = {
               "proof for all entry lists / file sets / counter values: reduce, Insert::map (consecutive checked IDs), the drivers' alloc_inv "
               "(disjoint ranges above every existing ID) and generate_code; Kani finds counterexamples for failed obligations and, in the thorough tier, "
               "cross-checks the reduce functions on the unrewritten crate (bounded)", extra=[("kani_cross_check", _c01k.run)]),
-    "C02": _p(["generate", "context"], COMMON_TRUST + " TWO KNOWN FINDINGS (known_findings.json, reproduced by findings/*.sh): the lock is written after the "
+    "C02": _p(["generate", "context", "main"], COMMON_TRUST + " TWO KNOWN FINDINGS (known_findings.json, reproduced by findings/*.sh): the lock is written after the "
               "source files, so (a) a kill between a rename and the lock write [C02.writeahead at the rename call site] and (b) a failed lock write, which "
               "is only logged [C02.lockfail of generate_code], leave a stale lock; every other obligation of C02 is discharged.",
               "step contract on generate_code for every exit (success, failed file, stop request): with the cache in use the lock file holds the counter "
               "value, which is >= every ID written (given the lock write succeeds); the lock writer's contract is proved in unit context; spec/history.rs "
               "proves by induction over histories (developer edits, check runs, edit runs satisfying the step contract) that the lock dominates every ID ever "
-              "written, hence no ID is written twice"),
+              "written, hence no ID is written twice; unit main: both stop signals are wired to the stop flag before the edit driver is called "
+              "(a delivered signal therefore ends the run through generate_code's exits, which write the lock) and no handler that terminates the process is installed"),
     "C03": _p(["generate", "find"], COMMON_TRUST,
               "Insert::map: the file is its original or an is_token_insertion of it (splice over exactly the missing entries, lemma erase==original); "
               "frame on all other paths; insertion offsets proved in range and ordered for `find`'s result"),
@@ -91,6 +93,20 @@ PROPS = {
               "both signals registered before either driver is called (call-site obligation); a poll that returned true makes check return Err; an interrupted edit "
               "keeps atomic_inv and writes the lock"),
 }
+
+
+def _fam(pid):
+    return lambda tier, seed: _e2e.run_family(pid, tier, seed)
+
+
+def _err(pid):
+    return lambda tier, seed: _e2e.run_errors(pid, tier, seed)
+
+
+for _k in ("C01", "C03", "C04", "C05", "C06", "C08", "C13", "C15", "C16", "C17"):
+    PROPS[_k]["fallback"] = [("e2e_bounded", _fam(_k))]
+for _k in ("C04", "C16"):
+    PROPS[_k]["fallback"].append(("e2e_errors_bounded", _err(_k)))
 for _k, _v in PROPS.items():
     _v.setdefault("technique", TECH % ", ".join(_v["units"]))
 
